@@ -816,8 +816,11 @@ func (s *Server) handleRPCFormContract(stream net.Conn) error {
 	// update renter input basis to reflect our funding basis
 	if basis != req.Basis {
 		hostInputs := formationTxn.SiacoinInputs[len(req.RenterInputs):]
-		formationTxn.SiacoinInputs = formationTxn.SiacoinInputs[:len(req.RenterInputs)]
-		txnset, err := s.chain.UpdateV2TransactionSet([]types.V2Transaction{formationTxn}, req.Basis, basis)
+		// update a copy: if this fails, the deferred ReleaseInputs must still
+		// see the host inputs in formationTxn
+		renterTxn := formationTxn
+		renterTxn.SiacoinInputs = formationTxn.SiacoinInputs[:len(req.RenterInputs)]
+		txnset, err := s.chain.UpdateV2TransactionSet([]types.V2Transaction{renterTxn}, req.Basis, basis)
 		if err != nil {
 			return errorBadRequest("failed to update renter inputs from %q to %q: %v", req.Basis, basis, err)
 		}
@@ -973,8 +976,11 @@ func (s *Server) handleRPCRefreshContract(stream net.Conn, partial bool) error {
 	// update renter inputs to reflect our chain state
 	if basis != req.Basis {
 		hostInputs := renewalTxn.SiacoinInputs[len(req.RenterInputs):]
-		renewalTxn.SiacoinInputs = renewalTxn.SiacoinInputs[:len(req.RenterInputs)]
-		updated, err := s.chain.UpdateV2TransactionSet([]types.V2Transaction{renewalTxn}, req.Basis, basis)
+		// update a copy: if this fails, the deferred ReleaseInputs must still
+		// see the host inputs in renewalTxn
+		renterTxn := renewalTxn
+		renterTxn.SiacoinInputs = renewalTxn.SiacoinInputs[:len(req.RenterInputs)]
+		updated, err := s.chain.UpdateV2TransactionSet([]types.V2Transaction{renterTxn}, req.Basis, basis)
 		if err != nil {
 			return errorBadRequest("failed to update renter inputs from %q to %q: %v", req.Basis, basis, err)
 		}
@@ -1154,8 +1160,11 @@ func (s *Server) handleRPCRenewContract(stream net.Conn) error {
 	// update renter inputs to reflect our chain state
 	if basis != req.Basis {
 		hostInputs := renewalTxn.SiacoinInputs[len(req.RenterInputs):]
-		renewalTxn.SiacoinInputs = renewalTxn.SiacoinInputs[:len(req.RenterInputs)]
-		updated, err := s.chain.UpdateV2TransactionSet([]types.V2Transaction{renewalTxn}, req.Basis, basis)
+		// update a copy: if this fails, the deferred ReleaseInputs must still
+		// see the host inputs in renewalTxn
+		renterTxn := renewalTxn
+		renterTxn.SiacoinInputs = renewalTxn.SiacoinInputs[:len(req.RenterInputs)]
+		updated, err := s.chain.UpdateV2TransactionSet([]types.V2Transaction{renterTxn}, req.Basis, basis)
 		if err != nil {
 			return errorBadRequest("failed to update renter inputs from %q to %q: %v", req.Basis, basis, err)
 		}
